@@ -569,7 +569,7 @@ def run(pid, t, replay=None):
     for k, bs in sorted(by_scn.items()):
         unmatched = []
         for b in bs:
-            sig = dict(kind="trace", why=b["why"], res=b["res"], cls=classify(scns[k], b))
+            sig = dict(kind="trace", why=b["why"], res=b["res"], cls=classify(scns[k], b), g=str(scns[k].get("g", 100)))
             kf = match_known(pid, sig, known)
             if kf:
                 known_hits.append(kf)
